@@ -754,7 +754,12 @@ func (l *Loader) mergeResult(fetchItem *FetchItem, res *result, items []*astjson
 			// we don't consider it as an error. Note: it is not compliant with graphql spec.
 			if hasErrors {
 				if l.validateRequiredExternalFields && res.postProcessing.SelectResponseDataPath != nil {
-					taintedIndices = getTaintedIndices(res.taintInfo(fetchItem), res.errorPathRoot(), responseData, responseErrors)
+					taintData := responseData
+					if dp := res.postProcessing.SelectResponseDataPath; res.multi == nil && len(dp) > 1 && dp[len(dp)-1] == "0" {
+						// single entity fetch: the data path selects _entities[0], error paths index the _entities array
+						taintData = response.Get(dp[:len(dp)-1]...)
+					}
+					taintedIndices = getTaintedIndices(res.taintInfo(fetchItem), res.errorPathRoot(), taintData, responseErrors)
 				}
 				if len(taintedIndices) > 0 {
 					// Override errors with generic error about missing deps.
@@ -779,6 +784,10 @@ func (l *Loader) mergeResult(fetchItem *FetchItem, res *result, items []*astjson
 		// Multi-entity entry items carry no Fetch (nil) and have no trailing index in their
 		// data path, so the check does not apply to them.
 		if res.multi == nil && isEmptyEntityFetch(fetchItem, response) {
+			if len(items) == 1 && slices.Contains(taintedIndices, 0) {
+				// the single entity came back as null with an error: its required fields are missing
+				l.taintedObjs.add(items[0])
+			}
 			return nil
 		}
 
